@@ -520,3 +520,276 @@ def install(fio, disk, mode, tf_errors=None):
         setattr(fio, k, v)
 
   return restore
+
+
+# --------------------------------------------------------------------------
+# store interface used by the engines (same on SimDisk and RealDisk)
+
+
+def _sim_install(self, fio, mode, tf_errors):
+  return install(fio, self, mode, tf_errors)
+
+
+def _sim_listdir(self, path):
+  p = self.norm(path)
+  if p not in self.dirs:
+    return []
+  return sorted(self.children(p))
+
+
+def _sim_snapshot(self):
+  return (dict(self.files), frozenset(self.dirs))
+
+
+def _sim_get_file(self, path):
+  return self.files.get(self.norm(path))
+
+
+def _sim_put_file(self, path, data):
+  p = self.norm(path)
+  cur = ''
+  for part in [x for x in posixpath.dirname(p).split('/') if x]:
+    cur += '/' + part
+    self.dirs.add(cur)
+  self.files[p] = data
+
+
+def _sim_put_dir(self, path):
+  p = self.norm(path)
+  cur = ''
+  for part in [x for x in p.split('/') if x]:
+    cur += '/' + part
+    self.dirs.add(cur)
+
+
+SimDisk.install = _sim_install
+SimDisk.listdir = _sim_listdir
+SimDisk.snapshot = _sim_snapshot
+SimDisk.get_file = _sim_get_file
+SimDisk.put_file = _sim_put_file
+SimDisk.put_dir = _sim_put_dir
+SimDisk.map = lambda self, p: p
+SimDisk.dispose = lambda self: None
+SimDisk.quiesce = lambda self: None
+SimDisk.real = False
+
+
+# --------------------------------------------------------------------------
+# real scratch directory under CPython's audit-hook seam (Orbax back-end)
+
+import os as _os
+import shutil as _shutil
+import sys as _sys
+import threading as _threading
+import time as _time
+
+_ACTIVE = {'disk': None}
+_HOOKED = [False]
+_LOCK = _threading.Lock()
+_MUT = {'os.rename', 'os.mkdir', 'os.remove', 'os.rmdir', 'os.truncate', 'os.link', 'os.symlink'}
+_WFLAGS = _os.O_WRONLY | _os.O_RDWR | _os.O_CREAT | _os.O_TRUNC | _os.O_APPEND
+
+
+def _resolve(ev, args):
+  p = args[0]
+  try:
+    p = _os.fspath(p)
+  except TypeError:
+    return None
+  if isinstance(p, bytes):
+    p = p.decode('utf-8', 'replace')
+  dir_fd = None
+  if ev in ('os.remove', 'os.rmdir') and len(args) > 1:
+    dir_fd = args[1]
+  elif ev == 'os.mkdir' and len(args) > 2:
+    dir_fd = args[2]
+  elif ev == 'os.rename' and len(args) > 3:
+    dir_fd = args[3]  # destination directory decides where the entry appears
+  if isinstance(dir_fd, int) and dir_fd >= 0 and not _os.path.isabs(p):
+    try:
+      p = _os.path.join(_os.readlink(f'/proc/self/fd/{dir_fd}'), p)
+    except OSError:
+      pass
+  return p
+
+
+def _audit(ev, args):
+  d = _ACTIVE['disk']
+  if d is None:
+    return
+  if ev in _MUT:
+    pass
+  elif ev == 'open':
+    mode, flags = args[1], args[2] if len(args) > 2 else 0
+    if isinstance(mode, str):
+      if not any(c in mode for c in 'wax+'):
+        return
+    elif not (isinstance(flags, int) and flags & _WFLAGS):
+      return
+  else:
+    return
+  p = _resolve(ev, args)
+  if p is None:
+    return
+  if ev == 'os.rename':
+    # report the destination (where a checkpoint appears); the source is in the same tree
+    try:
+      p = _os.fspath(args[1])
+      if isinstance(p, bytes):
+        p = p.decode()
+    except TypeError:
+      return
+  if not (p == d.root or p.startswith(d.root + '/')):
+    return
+  d.tick({'open': 'create', 'os.rename': 'rename', 'os.mkdir': 'mkdir', 'os.remove': 'remove', 'os.rmdir': 'rmdir'}.get(ev, ev), p)
+
+
+class RealDisk:
+  """A real scratch directory.  Every Python-level mutating file event under `root` is a numbered fault
+  point (CPython audit hook).  C++ writes of tensorstore are not intercepted (confined to Orbax's tmp dir)."""
+
+  real = True
+
+  def __init__(self, base, name):
+    self.base_dir = base
+    self.root = _os.path.join(base, name)
+    _os.makedirs(self.root, exist_ok=True)
+    self.ops = 0
+    self.base = 0
+    self.fault = None
+    self.frozen = False
+    self.fired = None
+    self.oplog = []
+    self.sched = None
+    self.err_factory = os_error
+    self._n = 0
+    if not _HOOKED[0]:
+      _sys.addaudithook(_audit)
+      _HOOKED[0] = True
+
+  def map(self, p):
+    return self.root + p
+
+  def rel(self, p):
+    return p[len(self.root) :] if p.startswith(self.root) else p
+
+  def tick(self, kind, path):
+    with _LOCK:
+      if self.frozen:
+        raise SimCrash('frozen')
+      i = self.ops - self.base
+      self.ops += 1
+      role = 'main' if _threading.current_thread() is _threading.main_thread() else 'bg'
+      self.oplog.append((kind, self.rel(path), role))
+      f = self.fault
+      if f is not None and f['at'] == i:
+        self.fired = dict(f, op=kind, name=self.rel(path), index=i)
+        if f['kind'] == 'crash':
+          self.frozen = True
+          raise SimCrash(f'crash at op {i} {kind} {path}')
+        self.fault = None
+        raise self.err_factory(f.get('err', 'EIO'), path)
+
+  def window(self, fault=None):
+    self.base = self.ops
+    self.fault = fault
+    self.fired = None
+    self.oplog = []
+
+  def quiesce(self, timeout=20.0):
+    """After a simulated crash: wait until every thread of the 'dead process' is gone before unfreezing."""
+    t0 = _time.time()
+    while _time.time() - t0 < timeout:
+      others = [t for t in _threading.enumerate() if t is not _threading.main_thread() and not t.daemon]
+      if not others:
+        return
+      _time.sleep(0.005)
+    raise RuntimeError('threads of the crashed save did not finish: ' + repr(_threading.enumerate()))
+
+  def restart(self):
+    self.quiesce()
+    self.frozen = False
+    self.fault = None
+
+  def install(self, fio, mode, tf_errors):
+    saved = dict(io_mode=fio.io_mode, NotFoundError=fio.NotFoundError)
+    # python os/shutil (visible to the audit hook); tensorflow's gfile is C++ and would be invisible
+    fio.io_mode = fio.BackendMode.DEFAULT
+    fio.NotFoundError = FileNotFoundError
+    prev = _ACTIVE['disk']
+    _ACTIVE['disk'] = self
+
+    def restore():
+      _ACTIVE['disk'] = prev
+      fio.io_mode = saved['io_mode']
+      fio.NotFoundError = saved['NotFoundError']
+
+    return restore
+
+  def activate(self):
+    _ACTIVE['disk'] = self
+
+  def clone(self):
+    self._n += 1
+    _ACTIVE['disk'], prev = None, _ACTIVE['disk']
+    try:
+      d = RealDisk(self.base_dir, _os.path.basename(self.root) + f'.c{self._n}')
+      _shutil.rmtree(d.root)
+      _shutil.copytree(self.root, d.root, symlinks=True)
+    finally:
+      _ACTIVE['disk'] = prev
+    return d
+
+  def dispose(self):
+    prev = _ACTIVE['disk']
+    _ACTIVE['disk'] = None
+    try:
+      _shutil.rmtree(self.root, ignore_errors=True)
+    finally:
+      _ACTIVE['disk'] = prev if prev is not self else None
+
+  def listdir(self, path):
+    try:
+      return sorted(_os.listdir(path))
+    except (FileNotFoundError, NotADirectoryError):
+      return []
+
+  def snapshot(self):
+    files, dirs = {}, set()
+    for dp, dn, fn in _os.walk(self.root):
+      dirs.add(self.rel(dp))
+      for f in fn:
+        p = _os.path.join(dp, f)
+        try:
+          files[self.rel(p)] = open(p, 'rb').read()
+        except OSError:
+          files[self.rel(p)] = None
+    return (files, frozenset(dirs))
+
+  def get_file(self, path):
+    try:
+      return open(path, 'rb').read()
+    except OSError:
+      return None
+
+  def _unhooked(self, fn):
+    prev = _ACTIVE['disk']
+    _ACTIVE['disk'] = None
+    try:
+      return fn()
+    finally:
+      _ACTIVE['disk'] = prev
+
+  def put_file(self, path, data):
+    def go():
+      _os.makedirs(_os.path.dirname(path), exist_ok=True)
+      with open(path, 'wb') as f:
+        f.write(data)
+
+    self._unhooked(go)
+
+  def put_dir(self, path):
+    self._unhooked(lambda: _os.makedirs(path, exist_ok=True))
+
+  def norm(self, p):
+    return _os.path.normpath(p)
